@@ -8,7 +8,7 @@ from .core import Broken, finish
 
 def lattice_check(ctx, gen, judge, harness, libs, rule, nontrivial, assumptions, level="exploration",
                   sig=lambda f, b: f, extra_env=None, harness_args=(),
-                  build=(), judge_heap="8g", describe=None):
+                  build=(), judge_heap="8g", describe=None, keep=lambda f: True, crash_is_mine=True):
     if build:
         ctx.build(*build)
     env = {"TIER": ctx.tier, "SEED": str(ctx.seed)}
@@ -41,6 +41,8 @@ def lattice_check(ctx, gen, judge, harness, libs, rule, nontrivial, assumptions,
     for b in bad:
         c = byid.get(b["id"])
         for f in b["fails"]:
+            if not keep(f):
+                continue
             what = "%s: case %s observed %s" % (f, json.dumps(c), json.dumps(b.get("obs"))[:400])
             ctx.violation(sig(f, b), what, {"case": c, "fails": b["fails"], "obs": b.get("obs")})
     keys = set()
